@@ -5,11 +5,58 @@ package main
 // the text with the SGR sequences removed, and a layout parser for that text.
 
 import (
+	"math/rand"
 	"regexp"
 	"strconv"
 	"strings"
 	"unicode/utf8"
+
+	"github.com/hedzr/is/term/color"
+	"github.com/hedzr/logg/slog"
 )
+
+// ---- level colour configuration (record field lc / event SetColors of the specifications)
+
+var encFgCodes = []int{31, 32, 33, 34, 35, 36, 37, 90, 91, 92, 94, 96, 97}
+var encBgCodes = []int{40, 41, 42, 43, 44, 45, 46, 47, 100, 101, 104, 107}
+var encAttrCodes = []int{1, 2, 3, 4, 5, 7, 9} // bold, dim, italic, underline, blink, inverse, strikeout
+
+// encFactoryColours: what the library starts with (slog/level.go mLevelColors, the registrations of
+// encMain).  Used ONLY to put the process-wide table back after a record / between behaviours; no
+// expectation is computed from it.
+var encFactoryColours = map[int][2]int{0: {91, -1}, 1: {91, -1}, 2: {31, -1}, 3: {33, -1}, 4: {36, -1}, 5: {35, -1},
+	6: {33, 2}, 7: {30, 2}, 8: {37, 5}, 9: {96, 5}, 10: {32, 5}, 11: {31, 1}, 17: {34, 2}, 18: {92, -1}}
+
+// encSetColours calls slog.SetLevelColors with concrete codes of the classes lc names.
+func encSetColours(sev int, lc encLC, r *rand.Rand) (fg, bg int) {
+	fg, bg = -1, -1
+	if lc.Fg == "fg" {
+		fg = encFgCodes[r.Intn(len(encFgCodes))]
+	}
+	switch lc.Bg {
+	case "bg":
+		bg = encBgCodes[r.Intn(len(encBgCodes))]
+	case "attr":
+		bg = encAttrCodes[r.Intn(len(encAttrCodes))]
+	}
+	slog.SetLevelColors(slog.Level(sev), color.Color(fg), color.Color(bg))
+	return
+}
+
+func encRestoreColours(sev int) {
+	if f, ok := encFactoryColours[sev]; ok {
+		slog.SetLevelColors(slog.Level(sev), color.Color(f[0]), color.Color(f[1]))
+	}
+}
+
+func encIntIn(s []int, x int) bool {
+	for _, y := range s {
+		if y == x {
+			return true
+		}
+	}
+	return false
+}
 
 // encScanSGR: stream of SGR parameters / line breaks, stripped text, number of raw control
 // bytes that are not part of an SGR sequence (ESC, C0 other than LF, DEL).
@@ -21,6 +68,19 @@ func encScanSGR(p []byte) (stream []int, text []byte, rawctl int) {
 			j := i + 2
 			for j < len(p) && (p[j] >= '0' && p[j] <= '9' || p[j] == ';') {
 				j++
+			}
+			if j < len(p) && p[j] != 'm' {
+				// ESC [ <parameter / intermediate bytes> m with a malformed parameter list (ESC [ - 1 m):
+				// an escape sequence a terminal ignores - token -2 (Ign), no text, no state change
+				k := j
+				for k < len(p) && p[k] >= 0x20 && p[k] <= 0x3f {
+					k++
+				}
+				if k < len(p) && p[k] == 'm' {
+					stream = append(stream, -2)
+					i = k + 1
+					continue
+				}
 			}
 			if j < len(p) && p[j] == 'm' {
 				params := strings.Split(string(p[i+2:j]), ";")
